@@ -1969,7 +1969,8 @@ class Engine(object):
                 if es is None:
                     raise EngineError("generator loop needs contract.yield_shape")
                 s0.yielded = SeqV(0, es, [z3.K(z3.IntSort(), ops_default(l)) for l in shape_leaves(es)])
-        for nm, g in eval_inv(s0, 0):
+        k0 = 0
+        for nm, g in eval_inv(s0, k0):
             self.oblige(s0, "inv-init", node, g, label=nm)
         # 2. havoc what the loop modifies
         h = s0.copy()
@@ -1995,18 +1996,27 @@ class Engine(object):
                 nv, f = fresh(shape_of(h.ghost[gk]), gk)
                 h.ghost[gk] = nv
                 facts.extend(f)
-        k = z3.Int(fresh_name(kname))
-        facts.append(k >= 0)
-        if is_for:
-            facts.append(k <= to_int_term(n_items))
+        bvloop = is_for and (is_bv(n_items) or (isinstance(itv, RangeV) and (is_bv(itv.lo) or is_bv(itv.hi))))
+        if bvloop:
+            w = self.bv or 72
+            k = z3.BitVec(fresh_name(kname), w)
+            n_t = ops.to_bv(n_items, w)
+            facts.append(k >= 0)
+            facts.append(k <= n_t)
+        else:
+            k = z3.Int(fresh_name(kname))
+            facts.append(k >= 0)
+            n_t = to_int_term(n_items) if is_for else None
+            if is_for:
+                facts.append(k <= n_t)
         h = h.assume(*facts)
         invs = eval_inv(h, k)
         h = h.assume(*[g for _, g in invs if g is not True])
         outs = []
         # 3. an arbitrary iteration
         if is_for:
-            s_in = h.assume(k < to_int_term(n_items))
-            s_out = h.assume(k == to_int_term(n_items))
+            s_in = h.assume(k < n_t)
+            s_out = h.assume(k == n_t)
             if self.feasible(s_in):
                 v, f = elem(k)
                 s_in = self.assign(node.target, v, s_in.assume(*f), node)
